@@ -31,7 +31,9 @@ pub const MAIN_TEXTS: [&str; 12] = [
 ];
 pub const OTHER_TEXTS: [&str; 3] = ["foo: nop\n", "foo: nop\nbar: rts\n", "foo: {\n"];
 pub const STRAY_TEXTS: [&str; 1] = ["lda #1\nzz: nop\n"];
-pub const FILES: [&str; 3] = ["main.asm", "other.asm", "stray.asm"];
+/// the project file as a buffer: the entry point is part of "the current buffers"
+pub const TOML_TEXTS: [&str; 2] = ["[build]\nentry = \"main.asm\"\n", "[build]\nentry = \"stray.asm\"\n"];
+pub const FILES: [&str; 4] = ["main.asm", "other.asm", "stray.asm", "mos.toml"];
 
 pub static TYPING_LADDER: std::sync::atomic::AtomicBool = std::sync::atomic::AtomicBool::new(false);
 
@@ -60,7 +62,8 @@ fn texts_of(file: usize) -> &'static [&'static str] {
             v
         }),
         1 => &OTHER_TEXTS,
-        _ => &STRAY_TEXTS,
+        2 => &STRAY_TEXTS,
+        _ => &TOML_TEXTS,
     }
 }
 
@@ -99,10 +102,10 @@ impl Event {
 }
 
 /// buffers[f] = Some(text index) when open
-pub type Buffers = [Option<usize>; 3];
+pub type Buffers = [Option<usize>; 4];
 
 pub fn buffers_after(history: &[Event]) -> Buffers {
-    let mut b: Buffers = [None; 3];
+    let mut b: Buffers = [None; 4];
     for e in history {
         match e {
             Event::Open(f, t) | Event::Change(f, t) => b[*f] = Some(*t),
@@ -475,7 +478,7 @@ pub fn observe(history: &[Event], battery: &[Probe], buffers: &Buffers) -> Obser
 
 fn enabled_events(buffers: &Buffers, thorough: bool) -> Vec<Event> {
     let mut ev = vec![];
-    for f in 0..3 {
+    for f in 0..4 {
         for t in 0..texts_of(f).len() {
             match buffers[f] {
                 None => ev.push(Event::Open(f, t)),
@@ -485,8 +488,10 @@ fn enabled_events(buffers: &Buffers, thorough: bool) -> Vec<Event> {
         }
         if buffers[f].is_some() {
             ev.push(Event::Close(f));
-            ev.push(Event::CodeLens(f));
-            ev.push(Event::Formatting(f));
+            if f < 3 {
+                ev.push(Event::CodeLens(f));
+                ev.push(Event::Formatting(f));
+            }
         }
     }
     // renames at identifier occurrences of the open main buffer
@@ -561,7 +566,7 @@ pub fn run(ctx: &Ctx, replay: Option<&Value>) -> i32 {
             }
             // other.asm first, so that main.asm's import finds it
             let mut h = vec![];
-            for f in [1usize, 2, 0] {
+            for f in [3usize, 1, 2, 0] {
                 if let Some(t) = b[f] {
                     h.push(Event::Open(f, t));
                 }
@@ -576,7 +581,7 @@ pub fn run(ctx: &Ctx, replay: Option<&Value>) -> i32 {
         let transitions = std::sync::atomic::AtomicU64::new(0);
         let requests = std::sync::atomic::AtomicU64::new(0);
         let mut frontier: Vec<Vec<Event>> = vec![vec![]];
-        seen.lock().unwrap().insert(([None; 3], get_reference(&[None; 3]).0));
+        seen.lock().unwrap().insert(([None; 4], get_reference(&[None; 4]).0));
         let mut depth = 0;
         let mut closure_here = false;
         let sample_histories: Mutex<Vec<Value>> = Mutex::new(vec![]);
@@ -696,7 +701,7 @@ pub fn run(ctx: &Ctx, replay: Option<&Value>) -> i32 {
     crate::lspdrv::cleanup_root();
     ctx.finish(
         "model_checking",
-        "explicit-state BFS over LSP event histories (didOpen/didChange/didClose of 3 files with a typing ladder of texts, rename, codeLens, formatting), once with an empty disk and once with an imported file on disk that has an error of its own; each state = history replayed on a fresh real server (real main loop over an in-memory connection); in every state the probe battery (10 request types x token starts / line ends / beyond-end / inside-multibyte positions x 3 files) is compared with a fresh server opened on the final buffers; canonical key = (buffers, digest of answers and diagnostics); states = distinct keys",
+        "explicit-state BFS over LSP event histories (didOpen/didChange/didClose of 3 source files with a typing ladder of texts and of mos.toml with two entry points, rename, codeLens, formatting), once with an empty disk and once with an imported file on disk that has an error of its own; each state = history replayed on a fresh real server (real main loop over an in-memory connection); in every state the probe battery (10 request types x token starts / line ends / beyond-end / inside-multibyte positions x 3 files) is compared with a fresh server opened on the final buffers; canonical key = (buffers, digest of answers and diagnostics); states = distinct keys",
         closure,
         &[
             "stdio framing is exercised only by the conformance replays against the real `mos lsp` process",
